@@ -59,6 +59,8 @@
 (*                            the library-chosen default probe of          *)
 (*                            from_random(patch_num=k)    (code as found)  *)
 (*   "ProbeClampedToRecords"  alternative design: probe = min(n, N)        *)
+(*   "DefaultProbeClampedToRecords"  alternative design: only the library- *)
+(*                            chosen default probe is limited to N         *)
 (*   "GlobalPixelRng"         HealPixRandoms draws the pixels with         *)
 (*                            np.random.choice (global RNG) (code as found)*)
 (***************************************************************************)
@@ -127,7 +129,10 @@ ChunkSize(r) ==
 (* get_probe / create_patch_centers size rules *)
 ProbeRejected(n, N) == Dev("ProbeBoundedByRecords") /\ n > N
 ProbeDrawn(n, N)    == IF Dev("ProbeClampedToRecords") /\ n > N THEN N ELSE n
-CentersProbe(k, p)  == IF p < 10 * k THEN DefProbe[k] ELSE p
+Min(a, b)           == IF a < b THEN a ELSE b
+CentersProbe(k, p)  == IF p < 10 * k
+                         THEN IF Dev("DefaultProbeClampedToRecords") THEN Min(DefProbe[k], sc.N) ELSE DefProbe[k]
+                         ELSE p
 
 ---------------------------------------------------------------------------
 (* history entries: uniform shape *)
